@@ -313,6 +313,11 @@ theorem tie_normalizedTextArith : normalizedTextArith =
      "spanStart = streamoffset",
      "spanEnd = streamoffset + int64(segment.Len)"] := rfl
 
+/-- `EscapeName` works on the *bytes* of the name (`[]byte(s)`), byte by byte: Model `escapeWith` over
+`Bytes`. (Iterating runes instead would turn ill-formed UTF-8 into U+FFFD: seeded change C10-e.) -/
+theorem tie_escapeNameText : escapeNameText =
+    "{ raw := []byte(s) escaped := make([]byte, 0, len(s)) for _, c := range raw { if c <= 32 || c == '\\\\' { oct := fmt.Sprintf(\"\\\\%03o\", c) escaped = append(escaped, []byte(oct)...) } else { escaped = append(escaped, c) } } return string(escaped) }" := rfl
+
 /-! Model-side readings of the tied literals (so that the model constants are pinned too). -/
 
 theorem tie_model_pkgEscapePred (c : UInt8) : ArvVerif.C10.pkgEscapePred c = (decide (c ≤ 32) || c == 92) := rfl
